@@ -1,6 +1,8 @@
 //! C07 harness: nearest-neighbour indices (linear scan, k-d tree, ball tree) of linfa-nn.
 //! A case carries an integer point set, one query point, a metric, lists of k values and radii
-//! (in eighths: r = r8 / 8, exactly representable) and a list of *sessions*; a session builds one
+//! (in eighths: r = r8 / 8, exactly representable), an optional scale `sc` (a power of two: the real
+//! coordinates are pts / sc, q / sc and the real radius r8 / (8 sc) -- sub-unit data, still exact in
+//! binary floating point; observations are multiplied back by sc) and a list of *sessions*; a session builds one
 //! index (kind, float type, leaf size, memory layout) through the public API and runs every query
 //! of the case on it. Everything the API returns is logged (positions and coordinates, as
 //! integers + an exactness flag); nothing is judged here.
@@ -14,7 +16,11 @@ use vh::serde_json::{json, Value};
 use vh::*;
 
 /// (point, position) list -> {"pos": [...], "pts": [[...], ...], "exact": all coordinates are integers}
-fn enc<F: Float>(res: &[(ArrayView1<F>, usize)]) -> Value {
+fn scale_of(inp: &Value) -> f64 {
+    inp.get("sc").and_then(|x| x.as_i64()).unwrap_or(1) as f64
+}
+
+fn enc<F: Float>(res: &[(ArrayView1<F>, usize)], sc: f64) -> Value {
     let mut exact = true;
     let mut pos = Vec::new();
     let mut pts = Vec::new();
@@ -22,7 +28,7 @@ fn enc<F: Float>(res: &[(ArrayView1<F>, usize)]) -> Value {
         pos.push(json!(*i as i64));
         let mut row = Vec::new();
         for v in p.iter() {
-            let x = v.to_f64().unwrap_or(f64::NAN);
+            let x = v.to_f64().unwrap_or(f64::NAN) * sc;
             if !x.is_finite() || x != x.round() || x.abs() > 1.0e9 {
                 exact = false;
                 row.push(json!(0));
@@ -39,20 +45,26 @@ fn empty_res() -> Value {
     json!({"pos": [], "pts": [], "exact": true})
 }
 
+/// lattice value x at scale sc -> x / sc (sc a power of two: exact)
+fn to_fs<F: Float>(x: i64, sc: f64) -> F {
+    F::from(x as f64 / sc).unwrap()
+}
+
 fn to_f<F: Float>(x: i64) -> F {
     F::from(x as f64).unwrap()
 }
 
-fn qvec<F: Float>(q: &[i64]) -> Array1<F> {
-    Array1::from(q.iter().map(|x| to_f::<F>(*x)).collect::<Vec<F>>())
+fn qvec<F: Float>(q: &[i64], sc: f64) -> Array1<F> {
+    Array1::from(q.iter().map(|x| to_fs::<F>(*x, sc)).collect::<Vec<F>>())
 }
 
 /// all queries of the case on one built index
 fn queries<F: Float>(ix: &dyn NearestNeighbourIndex<F>, inp: &Value, ev: &mut serde_json::Map<String, Value>) {
-    let q: Array1<F> = qvec(&ivec(&inp["q"]));
+    let sc = scale_of(inp);
+    let q: Array1<F> = qvec(&ivec(&inp["q"]), sc);
     let mut knn = Vec::new();
     for k in ivec(&inp["ks"]) {
-        let r = guarded(|| ix.k_nearest(q.view(), k as usize).map(|v| enc(&v)));
+        let r = guarded(|| ix.k_nearest(q.view(), k as usize).map(|v| enc(&v, sc)));
         knn.push(match r {
             Ok(Ok(v)) => json!({"k": k, "st": "ok", "res": v}),
             Ok(Err(_)) => json!({"k": k, "st": "err", "res": empty_res()}),
@@ -62,8 +74,8 @@ fn queries<F: Float>(ix: &dyn NearestNeighbourIndex<F>, inp: &Value, ev: &mut se
     ev.insert("knn".into(), Value::Array(knn));
     let mut rng = Vec::new();
     for r8 in ivec(&inp["r8s"]) {
-        let rad = F::from(r8 as f64 / 8.0).unwrap();
-        let r = guarded(|| ix.within_range(q.view(), rad).map(|v| enc(&v)));
+        let rad = F::from(r8 as f64 / (8.0 * sc)).unwrap();
+        let r = guarded(|| ix.within_range(q.view(), rad).map(|v| enc(&v, sc)));
         rng.push(match r {
             Ok(Ok(v)) => json!({"r8": r8, "st": "ok", "res": v}),
             Ok(Err(_)) => json!({"r8": r8, "st": "err", "res": empty_res()}),
@@ -74,7 +86,7 @@ fn queries<F: Float>(ix: &dyn NearestNeighbourIndex<F>, inp: &Value, ev: &mut se
     // malformed queries (wrong dimension): one k-nearest and one range call each
     let mut bad = Vec::new();
     for bq in geta(inp, "badq") {
-        let b: Array1<F> = qvec(&ivec(bq));
+        let b: Array1<F> = qvec(&ivec(bq), sc);
         let st = |r: Result<Result<usize, ()>, String>| match r {
             Ok(Ok(_)) => "ok",
             Ok(Err(_)) => "err",
@@ -91,12 +103,13 @@ fn queries<F: Float>(ix: &dyn NearestNeighbourIndex<F>, inp: &Value, ev: &mut se
 // Structure of a built ball tree, read from the public `Debug` output of `BallTreeIndex`
 // (`BallTreeIndex { tree: Branch { center: [..], shape=.., radius: r, left: .., right: .. } | Leaf {
 // center: [..], .., radius: r, points: [([..], .., pos), ..] }, dist_fn: .., dim: d, len: n }`).
-// Logged per node (pre-order): leaf flag, finiteness, centre and radius in hundredths, positions,
+// Logged per node (pre-order): leaf flag, finiteness, centre and radius in hundredths (of the lattice unit), positions,
 // child indices (1-based, 0 = none).
 
 struct Cur<'a> {
     s: &'a str,
     i: usize,
+    sc: f64, // centre and radius are logged multiplied by the case's scale
 }
 impl<'a> Cur<'a> {
     fn eat(&mut self, t: &str) -> Option<()> {
@@ -140,7 +153,7 @@ impl<'a> Cur<'a> {
                 pos.push(self.upto(")")?.parse::<i64>().ok()?);
             }
             self.eat(" }")?;
-            out[me] = json!({"lf": true, "fin": all_finite(c.iter()) && r.is_finite(), "c": fxv(c.iter(), 100.0), "r": fx(r, 100.0), "p": pos, "l": 0, "rt": 0});
+            out[me] = json!({"lf": true, "fin": all_finite(c.iter()) && r.is_finite(), "c": fxv(c.iter(), 100.0 * self.sc), "r": fx(r, 100.0 * self.sc), "p": pos, "l": 0, "rt": 0});
         } else {
             self.eat("Branch { center: ")?;
             let c = self.arr()?;
@@ -150,14 +163,14 @@ impl<'a> Cur<'a> {
             self.eat(", right: ")?;
             let rt = self.node(out)?;
             self.eat(" }")?;
-            out[me] = json!({"lf": false, "fin": all_finite(c.iter()) && r.is_finite(), "c": fxv(c.iter(), 100.0), "r": fx(r, 100.0), "p": [], "l": l + 1, "rt": rt + 1});
+            out[me] = json!({"lf": false, "fin": all_finite(c.iter()) && r.is_finite(), "c": fxv(c.iter(), 100.0 * self.sc), "r": fx(r, 100.0 * self.sc), "p": [], "l": l + 1, "rt": rt + 1});
         }
         Some(me)
     }
 }
 
-fn tree_nodes(dbg: &str) -> Option<Vec<Value>> {
-    let mut c = Cur { s: dbg, i: 0 };
+fn tree_nodes(dbg: &str, sc: f64) -> Option<Vec<Value>> {
+    let mut c = Cur { s: dbg, i: 0, sc };
     c.eat("BallTreeIndex { tree: ")?;
     let mut out = Vec::new();
     c.node(&mut out)?;
@@ -171,12 +184,13 @@ fn tree_session<F: Float, D: 'static + Distance<F> + std::fmt::Debug>(inp: &Valu
     let dim = geti(inp, "dim") as usize;
     let pts = imat(&inp["pts"]);
     let leaf = geti(se, "leaf");
-    let batch: Array2<F> = Array2::from_shape_fn((n, dim), |(r, c)| to_f::<F>(pts[r][c]));
+    let sc = scale_of(inp);
+    let batch: Array2<F> = Array2::from_shape_fn((n, dim), |(r, c)| to_fs::<F>(pts[r][c], sc));
     let built = guarded(|| BallTreeIndex::new(&batch, leaf as usize, dist.clone()).map(|t| format!("{:?}", t)).map_err(|e| e.to_string()));
     let (build, parsed, nodes) = match built {
         Err(_) => ("panic", false, vec![]),
         Ok(Err(_)) => ("err", false, vec![]),
-        Ok(Ok(d)) => match tree_nodes(&d) {
+        Ok(Ok(d)) => match tree_nodes(&d, sc) {
             Some(v) => ("ok", true, v),
             None => ("ok", false, vec![]),
         },
@@ -200,7 +214,8 @@ fn session<F: Float, D: 'static + Distance<F> + std::fmt::Debug>(inp: &Value, se
         ev.insert(f.into(), se[f].clone());
     }
     // the batch in the requested memory layout; `view` always shows rows 0..n-1 = the case's points
-    let val = |r: usize, c: usize| to_f::<F>(pts[r][c]);
+    let sc = scale_of(inp);
+    let val = |r: usize, c: usize| to_fs::<F>(pts[r][c], sc);
     let junk = to_f::<F>(-77);
     let owned: Array2<F> = match lay {
         "std" => Array2::from_shape_fn((n, dim), |(r, c)| val(r, c)),
